@@ -336,24 +336,30 @@ class GmpyStub:
     real = getattr(gmpy2, name)
     if not name.startswith('is_'):
       return real
+    return predicate_stub(name)
 
-    def predicate(*a):
-      if not any(is_sym(x) for x in a):
-        return real(*a)
-      # unknown gmpy predicate on symbolic arguments: arbitrary (memoised)
-      USED.add('gmpy.%s: arbitrary predicate of its arguments '
-               '(over-approximation)' % name)
-      e = eng()
-      ts = [pysym.term_of(_c(x)) for x in a]
-      key = ('pred', name) + tuple(
-          t.get_id() if hasattr(t, 'get_id') else t for t in ts)
-      hit = e.memo.get(key)
-      if hit is None:
-        hit = (e.fresh(name, 'bool'), ts)
-        e.memo[key] = hit
-      return pysym._wrap_bool(hit[0])
 
-    return predicate
+def predicate_stub(name):
+  """gmpy predicate on symbolic arguments: arbitrary (memoised, logged)."""
+  real = getattr(gmpy2, name)
+
+  def predicate(*a):
+    if not any(is_sym(x) for x in a):
+      return real(*a)
+    USED.add('gmpy.%s: arbitrary predicate of its arguments '
+             '(over-approximation)' % name)
+    e = eng()
+    ts = [pysym.term_of(_c(x)) for x in a]
+    key = ('pred', name) + tuple(
+        t.get_id() if hasattr(t, 'get_id') else t for t in ts)
+    hit = e.memo.get(key)
+    if hit is None:
+      hit = (e.fresh(name, 'bool'), ts)
+      e.memo[key] = hit
+    e.log.append(('pred', name, a, hit[0]))
+    return pysym._wrap_bool(hit[0])
+
+  return predicate
 
 
 GMPY = GmpyStub()
